@@ -288,7 +288,10 @@ func c17Block(t *rapid.T, ind string) (string, bool) {
 	// endpoints
 	w.line(1, "Leaf:")
 	w.line(2, "...")
-	params := []string{"a <: int", "b <: " + hub + ".Thing [~body]", "c <: Rec?", "d <: sequence of Rec [~hdr, pk=\"v\"]", "e <: string(3)"}
+	// several tags on one parameter, in an order that is not the alphabetical one (the first declared tag is
+	// the parameter's kind)
+	tagsets := []string{"~header, ~deprecated", "~query, ~optional", "~sensitive, ~audited", "~body, ~z, ~a", "~hdr"}
+	params := []string{"a <: int [" + pick(t, tagsets, "ptags1") + "]", "b <: " + hub + ".Thing [~body]", "c <: Rec?", "d <: sequence of Rec [" + pick(t, tagsets, "ptags2") + ", pk=\"v\"]", "e <: string(3)"}
 	np := rapid.IntRange(0, len(params)).Draw(t, "nparams")
 	sig := ""
 	if np > 0 {
